@@ -876,8 +876,22 @@ fn case_crash_images(out: &mut CaseOut, tier: &str, seed: u64, idx: u64) {
                 || e.op.kind() == OpKind::CreateTrunc
         })
         .collect();
+    // the rare ones first - calls on the scratch file of a CURRENT switch, on CURRENT itself, and
+    // the creation of a manifest or log (a handful per execution, drowned by table writes in a
+    // uniform sample) - then a random sample of the rest
+    let is_rare = |k: &usize| {
+        let e = &exec.journal[*k - 1];
+        matches!(e.op.class(), PathClass::Temp | PathClass::Current)
+            || (e.op.kind() == OpKind::CreateTrunc && matches!(e.op.class(), PathClass::Manifest | PathClass::Wal))
+    };
+    let mut rare: Vec<usize> = candidates.iter().copied().filter(|k| is_rare(k)).collect();
+    rng.shuffle(&mut rare);
+    rare.truncate(if tier == "quick" { 16 } else { 40 });
+    candidates.retain(|k| !is_rare(k));
     rng.shuffle(&mut candidates);
-    candidates.truncate(if tier == "quick" { 25 } else { 60 });
+    candidates.truncate(if tier == "quick" { 20 } else { 50 });
+    out.add("crash_points_on_current_switches_and_file_creations", rare.len() as u64);
+    candidates.extend(rare);
     candidates.sort_unstable();
     let mut replayer = Replayer::new(&dbutil::root_image());
     let mut checked = 0u64;
